@@ -10,8 +10,9 @@ QUICK = [("pipe_quick", 900), ("pt_quick", 700), ("pipe_ref_quick", 200), ("pipe
 THOROUGH = [("pipe_thorough", 12000), ("pt_thorough", 10000), ("pipe_ref_thorough", 3000), ("pipe_name_thorough", 3000), ("pt_ref_thorough", 1750)]
 
 FORMULAS = {
-    "C01": ["NoLeak", "AtMostOne", "NameStable", "Quiescent"],
-    "C03": ["FailSafe.Writes", "FailSafe.Refs", "NeverDeleteDesired", "GcExact.Missed", "GcExact.Extra"],
+    "C01": ["NoLeak", "AtMostOne", "NameStable", "Quiescent", "Tie"],
+    "C04": ["Observed.Complete"],
+    "C03": ["FailSafe.Writes", "FailSafe.Refs", "NeverDeleteDesired", "NeverDeleteDesired.Made", "GcExact.Missed", "GcExact.Extra"],
     "C02": ["ForeignUntouched"],
 }
 
